@@ -140,6 +140,13 @@ func (m *RWMutex) acquire(write bool) {
 		m.mu.Unlock()
 		Probe("mutex-contended")
 		<-ch
+		// All waiters are woken by a release.  Who retries first must be the scheduler's decision,
+		// not the Go runtime's: park before touching the lock again.
+		if r := cur.Load(); r != nil {
+			if g := r.me(); g != nil {
+				r.park(g, "mu.retry")
+			}
+		}
 	}
 }
 
